@@ -800,3 +800,37 @@ impl Ctx {
 pub fn pick(ix: u16, n: usize) -> usize {
     ((ix as usize) * n) >> 16
 }
+
+
+/// Wrapper for objects of the code under test that a check keeps across steps: dropped normally,
+/// but leaked when the thread is already unwinding, so that a destructor of the code under test
+/// that panics as well cannot turn a reported failure into a process abort (double panic).
+pub struct Sut<T>(std::mem::ManuallyDrop<T>);
+
+impl<T> Sut<T> {
+    pub fn new(t: T) -> Self {
+        Sut(std::mem::ManuallyDrop::new(t))
+    }
+}
+
+impl<T> Drop for Sut<T> {
+    fn drop(&mut self) {
+        if !std::thread::panicking() {
+            // SAFETY: dropped exactly once, here
+            unsafe { std::mem::ManuallyDrop::drop(&mut self.0) }
+        }
+    }
+}
+
+impl<T> std::ops::Deref for Sut<T> {
+    type Target = T;
+    fn deref(&self) -> &T {
+        &self.0
+    }
+}
+
+impl<T> std::ops::DerefMut for Sut<T> {
+    fn deref_mut(&mut self) -> &mut T {
+        &mut self.0
+    }
+}
